@@ -103,7 +103,7 @@ namespace BitSerializer::Convert::Detail
 			if constexpr (TDivRatio::num == 1)
 			{
 				const auto v = static_cast<TTargetRep>(static_cast<TOpRep>(duration.count()) / static_cast<TOpRep>(TDivRatio::den));
-				if (static_cast<TRep>(v * TDivRatio::den) != duration.count()) {
+				if (static_cast<TRep>(static_cast<TOpRep>(v) * static_cast<TOpRep>(TDivRatio::den)) != duration.count()) {
 					throw std::out_of_range("Precision of target duration is not enough");
 				}
 				return TTarget(v);
@@ -117,7 +117,7 @@ namespace BitSerializer::Convert::Detail
 				}
 
 				const auto v = static_cast<TTargetRep>(static_cast<TOpRep>(duration.count()) * static_cast<TOpRep>(TDivRatio::num) / static_cast<TOpRep>(TDivRatio::den));
-				if (v && static_cast<TRep>(v * TDivRatio::den / TDivRatio::num) != duration.count()) {
+				if (v && static_cast<TRep>(static_cast<TOpRep>(v) * static_cast<TOpRep>(TDivRatio::den) / static_cast<TOpRep>(TDivRatio::num)) != duration.count()) {
 					throw std::out_of_range("Precision of target duration is not enough");
 				}
 				return TTarget(v);
